@@ -12,7 +12,7 @@ prop=$(python3 -c "import json,sys;print(json.load(open(sys.argv[1]))['property'
 wt=$(mktemp -d /tmp/seed-XXXXXX); rmdir "$wt"
 git -C /repo worktree add -q --detach "$wt" HEAD || exit 2
 trap 'git -C /repo worktree remove --force "$wt" >/dev/null 2>&1; rm -rf "$wt"' EXIT
-pkg=$(head -1 "$d/demo_test.go" | sed -n 's#^// *copy to: *\([^ ]*\).*#\1#p'); pkg=${pkg%/}
+pkg=$(head -1 "$d/demo_test.go" | sed -n 's#^// *copy to: *\([^ ]*\).*#\1#p; s#^// *Copy this file into the package directory \([^ ]*\).*#\1#p'); pkg=${pkg%/}
 [ -n "$pkg" ] || { echo "$d: demo_test.go lacks '// copy to:' line"; exit 2; }
 demo="$wt/$pkg/zz_seed_demo_test.go"
 cp "$d/demo_test.go" "$demo"
